@@ -1,20 +1,75 @@
 /-
   C18  Settings obey command line > environment > default; bad values are refused.
-  PROPERTY THEOREMS ONLY (helper lemmas live in PdshVerif/Opt/Lemmas.lean).
+  PROPERTY THEOREMS ONLY (helper lemmas live in PdshVerif/Opt/{Lemmas,Accept,Table,Command}.lean).
 
-  Model: PdshVerif/Opt/Settings.lean (`effective` = opt_default, opt_env, getopt, opt_args_early, opt_args,
-  opt_verify with the C conversions of Base/CInt.lean).  `lastArg ch toks` = the argument of the last
-  occurrence of option `-ch` among getopt's answers for the command line.
+  Model: PdshVerif/Opt/Settings.lean (`mainPlan` = main as a whole: opt_default, opt_env, getopt, opt_args_early,
+  opt_args incl. the assembly of the remote command / the file list, opt_verify, and main's decision what to start;
+  `effective` = the same up to opt_verify; C conversions of Base/CInt.lean).  `lastArg ch toks` = the argument of the
+  last occurrence of option `-ch` among getopt's answers for the command line.
 
-  `Fixes.none` = the code as it is in /repo; a theorem that needs a repair names the switch
-  (`fx.d4`, `fx.d5`, `fx.atoi`, `fx.dopt`).  Statements that are FALSE of the unchanged code have a
-  kernel-checked counterexample `..._unchanged_false`; what does hold for it is `..._partial`.
+  `Fixes.none` = the code as it was at the pinned commit; a theorem that needs a repair names the switch
+  (`fx.d4`, `fx.d5`, `fx.atoi`, `fx.dopt`, `fx.wuser`, `fx.early`).  Statements that are FALSE of the unchanged code
+  have a kernel-checked counterexample `..._unchanged_false`; what does hold for it is `..._partial`.
+
+  CLAUSE OF THE PROPERTY TEXT                                   THEOREM(S)
+  "every run-time setting (fanout, time-outs, remote user,      precedence (all seven, every variant, environment,
+   transport, module selection, remote pdcp path) takes the      command line, option order, personality);
+   value given on the command line if present, else the one      env_table_precedence / opt_table_precedence (for every
+   from its environment variable, else the built-in default"     row of the table DERIVED FROM THE BEHAVIOUR of opt.c);
+                                                                 takes_value_given (valid texts: the very number / text)
+  "independent of option order and of which other options        independent, lastArg_other_options, spelling_independent
+   are present"                                                  (getopt_spelled: every way getopt lets options be
+                                                                 written), precedence_misc (module selection: repaired
+                                                                 `early`; unchanged: misc_order_dependent_unchanged_false,
+                                                                 open finding C18-EARLY-PASS-MODULE-OPTION)
+  "a fanout that is not a positive integer, a negative           rejected (repaired d4 d5 atoi), rejected_partial (every
+   time-out, an over-long user name, an unknown transport, a     variant), numeric_exact_or_refused (every int row of the
+   malformed numeric environment value is rejected"              generated table), wcoll_refused (values given per target
+                                                                 in -w words), witnesses rejected_unchanged_false,
+                                                                 rejected_witnesses_repaired, wcoll_user_unchanged_false
+  "with a diagnostic and a non-zero exit before anything is      refused_nothing_started, refusal_exits_1 (status 1, or 0
+   contacted"                                                    only for -L -V -T); that a diagnostic is printed is
+                                                                 observed on the real binary (oracle), not modelled
+  "pdsh never hangs on it"                                       never_hangs, never_hangs_whole (main as a whole, all
+                                                                 three personalities), never_hangs_fanout (composed with
+                                                                 the fan-out LTS of C03: no deadlock, bounded executions
+                                                                 for the accepted fanout), never_hangs_unchanged_false
+  valid values are accepted (the converse the text implies)      accepts_valid, takes_value_given
+  the switch of opt_args, letter by letter                       switch_table_agrees, switch_table_complete, switch_rows_act,
+                                                                 numeric_options_use_table_conv
+  the same at the point where a setting takes effect (the user  contacts_order_independent, contact_user_is_setting,
+   every target is contacted with; composed with C09's model)    contacts_witness
+  pdsh / pdcp / rpdcp option sets (generated option strings)     personality_letters, dsh_remote_path_default,
+                                                                 pcp_no_S_no_k, S_k_iff_on_command_line
+  the remote command, the prompt loop (main as a whole)          command_is_operands, command_words_verbatim,
+                                                                 command_any_spelling, interactive_iff_no_command,
+                                                                 started_run_or_loop, main_witnesses
+
+  NOT PROVED / NOT MODELLED (correspondence only, or outside):
+    * glibc getopt / strtol / strtoul / atoi are modelled (Settings.lean, Base/CInt.lean), not verified; tied to the
+      real functions by the differential runs of checks/c18.py.
+    * that a refusal prints a diagnostic naming the offender: observed on the real binary (oracle clause
+      `rejected-without-diagnostic`, evidence `refusal_kinds`), no theorem.
+    * WCOLL, `^file` / `/regex/` / `-host` words, `-w -` (targets from stdin, `stdin_unavailable`), `-x`, module-supplied
+      target lists: they select TARGETS (C02, C10); here they only matter through "no targets" (a refusal).
+    * DSHPATH (row of the generated environment table, member dshpath): part of the command C09 sends.
+    * -z / -Z / -y (pdcp server / client modes started by pdcp itself): modelled (optVerifyModes, `plan`) and under
+      the correspondence, but the theorems about refusals carry the hypothesis pcpServer = pcpClient = false.
+    * what a module's option handler does with its argument; only its arity matters here (`Defaults.modOpts`).
+    * point of use: the user every target is contacted with is modelled (Opt/Use.lean, composed with C09's registry
+      model) and observed on real runs in every option order; the fanout and the command time-out in force are
+      OBSERVED where they take effect (overlapping commands, a command cut short) for every source and position, their
+      use inside dsh() is C03/C04's and C07's model; the connect time-out (exec refuses it) and the remote pdcp path
+      (no exec transport for the copy personalities in this build) are only observed where they are stored (-q).
 -/
 import PdshVerif.Opt.Settings
 import PdshVerif.Opt.Spec
 import PdshVerif.Opt.Lemmas
 import PdshVerif.Opt.Accept
 import PdshVerif.Opt.Table
+import PdshVerif.Opt.Command
+import PdshVerif.Props.C03
+import PdshVerif.Opt.Use
 
 namespace PdshVerif.C18
 open PdshVerif PdshVerif.Opt
@@ -185,25 +240,43 @@ theorem letterOf_rcmd : letterOf "rcmd_name" = 'R' := by decide
 theorem letterOf_misc : letterOf "misc_modules" = 'M' := by decide
 theorem letterOf_path : letterOf "remote_program_path" = 'e' := by decide
 
-/-- SETTINGS TABLE, environment side: for EVERY row (variable, opt_t field, conversion) that harness/consts/
-    optable.c reads off opt_env() of the tree under test — not a typed list — an accepted configuration obeys
-    command line > that variable > default, the option letter being the one the generated switch table gives for
-    the field and the environment conversion the one named in the row.  A variable added to opt_env changes the
-    generated table and this theorem stops checking until the model covers it. -/
+/-- what the generated ENVIRONMENT table may contain: the rows the model covers (variable, member and behaviour
+    class must all fit), in any order and any number -/
+def EnvRowKnown (r : String × String × String) : Bool :=
+  (r.2.1 = "fanout" && r.1 = "FANOUT" && r.2.2 = "string_to_int") ||
+  (r.2.1 = "connect_timeout" && r.1 = "PDSH_CONNECT_TIMEOUT" && r.2.2 = "string_to_int") ||
+  (r.2.1 = "command_timeout" && r.1 = "PDSH_COMMAND_TIMEOUT" && r.2.2 = "string_to_int") ||
+  (r.2.1 = "rcmd_name" && r.1 = "PDSH_RCMD_TYPE" && r.2.2 = "strdup") ||
+  (r.2.1 = "misc_modules" && r.1 = "PDSH_MISC_MODULES" && r.2.2 = "strdup") ||
+  (r.2.1 = "remote_program_path" && r.1 = "PDSH_REMOTE_PDCP_PATH" && r.2.2 = "strdup") ||
+  r.2.1 = "dshpath"
+
+/-- SETTINGS TABLE, environment side: for EVERY row (variable, opt_t member, behaviour class) that harness/consts/
+    optable.c derives from the BEHAVIOUR of opt_env() of the tree under test (getenv interposed: every name asked for
+    is set to a sentinel, the members that change give the rows) — not a typed list, not a reading of the source
+    text — an accepted configuration obeys command line > that variable > default, the option letter being the one
+    the generated switch table gives for the member and the environment conversion the one named in the row.
+    A variable added to opt_env changes the generated table and this theorem stops checking until the model covers
+    it; a refactoring that keeps the behaviour leaves the table, and this proof, untouched (the proof does not
+    depend on the order or number of rows). -/
 theorem env_table_precedence {fx : Fixes} {d : Defaults} {p : Pers} {env : Env} {argv : List Str} {c : Cfg}
     (h : effective fx d p env argv = .ok c) : ∀ r ∈ Gen.OT_ENVS, EnvRowHolds fx d p env argv c r := by
   obtain ⟨a1, a2, a3, _, a5, a6, a7⟩ := precedence h
   have cs : ∀ t, (convByName fx "string_to_int" t).getD 0 = convS fx t := fun t => by simp [convByName, convS]
+  have known : ∀ r ∈ Gen.OT_ENVS, EnvRowKnown r = true := by decide
   intro r hr
-  simp only [Gen.OT_ENVS, List.mem_cons, List.mem_nil_iff, or_false] at hr
-  rcases hr with rfl | rfl | rfl | rfl | rfl | rfl | rfl
+  have hk := known r hr
+  obtain ⟨v, f, cv⟩ := r
+  simp only [EnvRowKnown, Bool.or_eq_true, Bool.and_eq_true, decide_eq_true_eq] at hk
+  rcases hk with (((((⟨⟨rfl, rfl⟩, rfl⟩ | ⟨⟨rfl, rfl⟩, rfl⟩) | ⟨⟨rfl, rfl⟩, rfl⟩) | ⟨⟨rfl, rfl⟩, rfl⟩) | ⟨⟨rfl, rfl⟩, rfl⟩) |
+    ⟨⟨rfl, rfl⟩, rfl⟩) | rfl
   · simp only [EnvRowHolds, if_true, letterOf_fanout, cs]; exact a1
   · simp only [EnvRowHolds, letterOf_ctmo, cs]; simpa using a2
   · simp only [EnvRowHolds, letterOf_utmo, cs]; simpa using a3
   · simp only [EnvRowHolds, letterOf_rcmd]; simpa using a5
   · simp only [EnvRowHolds, letterOf_misc]; simpa using a6
-  · simp [EnvRowHolds]
   · simp only [EnvRowHolds, letterOf_path]; simpa using a7
+  · simp [EnvRowHolds]
 
 /-- SETTINGS TABLE, option side: every `case` of the generated switch table of opt_args is accounted for — the
     remote user (no variable) obeys command line > default; the fields with a variable are the rows above; what
@@ -218,15 +291,63 @@ theorem opt_table_precedence {fx : Fixes} {d : Defaults} {p : Pers} {env : Env} 
       decide
     simp only [OptRowHolds, hru, if_true, this]
     exact a4
-  · have : (Gen.OT_ENVS.any (fun e => e.2.1 = r.2.1)) = true ∨ r.2.2 = "flag" ∨ r.2.2 = "none" := by
+  · have : (Gen.OT_ENVS.any (fun e => e.2.1 = r.2.1)) = true ∨
+        (r.2.2 = "flag" ∨ r.2.2 = "none" ∨ r.2.2 = "exit0" ∨ r.2.2 = "exit1") ∨ r.2.1 = "wcoll" := by
       revert hru; revert r
       decide
     simp only [OptRowHolds, hru, if_false]
-    rcases this with h1 | h2
+    by_cases h1 : (Gen.OT_ENVS.any (fun e => e.2.1 = r.2.1)) = true
     · simp [h1]
-    · by_cases h1 : (Gen.OT_ENVS.any (fun e => e.2.1 = r.2.1)) = true
-      · simp [h1]
+    · rcases this with h0 | h2 | h3
+      · exact absurd h0 h1
       · simp [h1, h2]
+      · by_cases h2 : (r.2.2 = "flag" ∨ r.2.2 = "none" ∨ r.2.2 = "exit0" ∨ r.2.2 = "exit1")
+        · simp [h1, h2]
+        · simp [h1, h2, h3]
+
+/-- THE SWITCH, letter by letter: every row (letter, opt_t member, behaviour class) that the probe derives from the
+    BEHAVIOUR of opt_args of the tree under test is the `case` the model's switch has for that letter — the letters
+    that end the program (exit 0: -L -V -T; exit 1: -h and the letters of the option string nobody handles), the
+    flags with the member they set, the numeric settings with their member, the texts kept verbatim, the bounded
+    text (-l), the target list.  A new letter, a letter that starts to set another member, or a changed conversion
+    (atoi for string_to_int) changes the table and this theorem stops checking. -/
+theorem switch_table_agrees : ∀ r ∈ Gen.OT_OPTS, SwitchRowAgrees r = true := by decide
+
+/-- ... and every letter of the three generated option strings has a row: no `case` of the real switch is missing
+    from the table the theorems range over -/
+theorem switch_table_complete :
+    ∀ ch ∈ (Gen.OT_GEN_ARGS ++ Gen.OT_DSH_ARGS ++ Gen.OT_PCP_ARGS).toList, ch = ':' ∨
+      Gen.OT_OPTS.any (fun r => r.1.toList.headD ' ' = ch) = true := by decide
+
+/-- what `switch_table_agrees` means for the model's ACTION, class by class (every variant of the code, every module
+    option text, every argument) -/
+theorem switch_rows_act (fx : Fixes) (d : Defaults) (arg : Option Str) : ∀ r ∈ Gen.OT_OPTS,
+    let ch := r.1.toList.headD ' '
+    (r.2.2 = "exit0" → action fx d (.opt ch arg) = .exit 0) ∧
+    (r.2.2 = "exit1" → modOpt d ch = false → fx.dopt = false → action fx d (.opt ch arg) = .exit 1) ∧
+    (r.2.2 = "none" → fx.dopt = true → action fx d (.opt ch arg) = .keep) ∧
+    (r.2.2 = "bounded_text" → action fx d (.opt ch arg) =
+      if (arg.getD []).length > d.loginMax then .exit 1 else .ruser (arg.getD [])) := by
+  intro r hr
+  have hk := switch_table_agrees r hr
+  obtain ⟨l, f, cv⟩ := r
+  simp only [List.headD_eq_head?_getD]
+  refine ⟨?_, ?_, ?_, ?_⟩
+  · intro h; subst h
+    simp [SwitchRowAgrees, caseOfRow] at hk
+    simp [action, hk]
+  · intro h hm hd; subst h
+    simp [SwitchRowAgrees, caseOfRow] at hk
+    rcases hk with hk | hk <;> simp [action, hk, hm, hd]
+  · intro h hd; subst h
+    simp [SwitchRowAgrees, caseOfRow] at hk
+    rcases hk with hk | hk <;> simp [action, hk, hd]
+  · intro h; subst h
+    simp only [SwitchRowAgrees, caseOfRow] at hk
+    by_cases hf : f = "ruser"
+    · simp [hf] at hk
+      simp [action, hk]
+    · simp [hf] at hk
 
 /-- NUMERIC SETTINGS, one theorem over the generated tables: every row of the option and environment tables whose
     opt_t field is an `int` (OT_INT_FIELDS, read off opt.h) converts with string_to_int — no atoi is left — and that
@@ -842,6 +963,277 @@ example : ∃ c, effective Fixes.none d0 .dsh [("FANOUT".toList, "8".toList)]
     (render [⟨'N', none⟩, ⟨'f', some "3".toList⟩, ⟨'R', some "exec".toList⟩, ⟨'u', some "7".toList⟩,
              ⟨'w', some "h".toList⟩] [ "cmd".toList ]) = .ok c ∧ c.fanout = 3 ∧ c.commandTimeout = 7 := by
   refine ⟨_, rfl, ?_⟩
+  decide
+
+
+/-! ## the whole of main: the remote command, the prompt loop, what is started -/
+
+theorem mainPlan_ok_inv {fx : Fixes} {d : Defaults} {p : Pers} {env : Env} {argv : List Str} {c : Cfg} {nx : Next}
+    (h : mainPlan fx d p env argv = .ok (c, nx)) :
+    effective fx d p env argv = .ok c ∧ nx = plan p c (getopt (fullString d p) argv).2 := by
+  unfold mainPlan at h
+  cases he : effective fx d p env argv with
+  | exit n => simp [he] at h
+  | ok c' =>
+    simp only [he, Except.ok.injEq, Prod.mk.injEq] at h
+    obtain ⟨rfl, rfl⟩ := h
+    exact ⟨rfl, rfl⟩
+
+/-- REFUSED MEANS NOTHING IS STARTED: main's result is "exit n" exactly when opt_env / opt_args / opt_verify
+    refused, and then there is no `Next` — neither dsh() nor the prompt loop is entered, nothing is contacted -/
+theorem refused_nothing_started (fx : Fixes) (d : Defaults) (p : Pers) (env : Env) (argv : List Str) (n : Nat) :
+    mainPlan fx d p env argv = .error n ↔ effective fx d p env argv = .exit n := by
+  unfold mainPlan
+  cases effective fx d p env argv <;> simp
+
+/-- THE REMOTE COMMAND (every variant, every environment, every command line): when main starts a DSH run, the
+    command it runs is exactly the words that remain after the options, in order, joined by single blanks — no
+    option, no option argument and no environment value is part of it — and there is at least one such word -/
+theorem command_is_operands {fx : Fixes} {d : Defaults} {p : Pers} {env : Env} {argv : List Str} {c : Cfg} {cmd : Str}
+    (h : mainPlan fx d p env argv = .ok (c, .run (some cmd))) :
+    p.isPcp = false ∧ (getopt (fullString d p) argv).2 ≠ [] ∧ cmd = joinWords (getopt (fullString d p) argv).2 := by
+  obtain ⟨_, hn⟩ := mainPlan_ok_inv h
+  unfold plan at hn
+  split at hn
+  · cases hn
+  · split at hn
+    · cases hn
+    · split at hn
+      · cases hn
+      · split at hn
+        · cases hn
+        · rename_i hp
+          split at hn
+          · rename_i cmd' hc
+            simp only [Next.run.injEq, Option.some.injEq] at hn
+            subst hn
+            obtain ⟨h1, h2⟩ := assembleCmd_some hc
+            exact ⟨by simpa using hp, h1, h2⟩
+          · cases hn
+
+/-- ... so the words of the command can be read back verbatim (blank-free words: what C09's per-host argument
+    vector is built from) -/
+theorem command_words_verbatim {fx : Fixes} {d : Defaults} {p : Pers} {env : Env} {argv : List Str} {c : Cfg}
+    {cmd : Str} (h : mainPlan fx d p env argv = .ok (c, .run (some cmd)))
+    (hnb : ∀ w ∈ (getopt (fullString d p) argv).2, ' ' ∉ w) :
+    splitBlank cmd = (getopt (fullString d p) argv).2 := by
+  obtain ⟨_, hne, rfl⟩ := command_is_operands h
+  exact splitBlank_joinWords _ hne hnb
+
+/-- ... and it does not depend on how the options are SPELLED, nor on which options there are: for every way of
+    writing the option sequence `opts` in front of the operands `ops` (attached / detached arguments, clusters,
+    `--` or not), the command is `ops` joined by blanks; words after the first operand are never taken for
+    options (`pdsh -w h ls -l`: `-l` belongs to the command) -/
+theorem command_any_spelling {fx : Fixes} {d : Defaults} {p : Pers} {env : Env} {opts : List OptW} {ops ws : List Str}
+    {c : Cfg} {cmd : Str} (hs : Spelled (fullString d p) opts ops ws)
+    (h : mainPlan fx d p env ws = .ok (c, .run (some cmd))) : cmd = joinWords ops := by
+  obtain ⟨_, _, hc⟩ := command_is_operands h
+  rw [getopt_spelled _ hs] at hc
+  exact hc
+
+/-- THE PROMPT LOOP: an accepted pdsh (not pdcp) command line that is not a listing reads its commands from stdin
+    exactly when no word is left after the options ("no command ⇒ interactive") -/
+theorem interactive_iff_no_command {fx : Fixes} {d : Defaults} {p : Pers} {env : Env} {argv : List Str} {c : Cfg}
+    (h : effective fx d p env argv = .ok c) (hp : p.isPcp = false) (hq : c.infoOnly = false) :
+    mainPlan fx d p env argv = .ok (c, .interactive) ↔ (getopt (fullString d p) argv).2 = [] := by
+  unfold mainPlan plan
+  simp only [h, hp, hq, Bool.false_and, Bool.false_eq_true, if_false]
+  cases hc : assembleCmd (getopt (fullString d p) argv).2 with
+  | none => simp [assembleCmd_none.mp hc]
+  | some cmd =>
+    have := (assembleCmd_some hc).1
+    simp [this]
+
+/-- what main starts is a function of the accepted configuration and the operands only -/
+theorem started_run_or_loop {fx : Fixes} {d : Defaults} {p : Pers} {env : Env} {argv : List Str} {c : Cfg} {nx : Next}
+    (h : mainPlan fx d p env argv = .ok (c, nx)) (hq : c.infoOnly = false) (hz : c.pcpServer = false)
+    (hZ : c.pcpClient = false) : (∃ cmd, nx = .run cmd) ∨ (nx = .interactive ∧ p.isPcp = false) := by
+  obtain ⟨_, hn⟩ := mainPlan_ok_inv h
+  subst hn
+  unfold plan
+  simp only [hq, hz, hZ, Bool.and_false, Bool.false_eq_true, if_false]
+  cases hp : p.isPcp with
+  | true => simp
+  | false =>
+    simp only [Bool.false_eq_true, if_false]
+    cases assembleCmd (getopt (fullString d p) argv).2 <;> simp
+
+/-- NEVER HANGS, the whole of main (repaired D4): whenever main goes on to dsh() or to the prompt loop — from any
+    environment and command line, for pdsh, pdcp and rpdcp — the fanout is >= 1, so the dispatcher's wait
+    `fanout == threadcount` is never entered with nobody to signal it -/
+theorem never_hangs_whole {fx : Fixes} {d : Defaults} {p : Pers} {env : Env} {argv : List Str} {c : Cfg} {nx : Next}
+    (hd4 : fx.d4 = true) (h : mainPlan fx d p env argv = .ok (c, nx))
+    (hplain : c.pcpServer = false ∧ c.pcpClient = false) : c.fanout ≥ 1 ∧ runTerminates c = true :=
+  never_hangs hd4 (mainPlan_ok_inv h).1 hplain
+
+/-- NEVER HANGS, composed with the fan-out LTS of C03 (by import of `C03.progress` and `C03.steps_bounded`, whose
+    only hypothesis about the configuration is `0 < f`): whenever main goes on to dsh() (repaired D4), the fanout it
+    hands to the dispatcher is a natural number f >= 1, and for THAT f — for every variant of the dispatcher, every
+    number of targets, every reachable state of dispatcher and workers in which dsh() has not returned — some
+    operation other than a spurious wake-up is enabled (no deadlock, no lost wake-up), and every execution with k
+    spurious wake-ups has at most 18 n + 13 + 3 k steps.  The accepted settings of C18 are exactly the domain of C03. -/
+theorem never_hangs_fanout {fx : Fixes} {d : Defaults} {p : Pers} {env : Env} {argv : List Str} {c : Cfg} {nx : Next}
+    (hd4 : fx.d4 = true) (h : mainPlan fx d p env argv = .ok (c, nx))
+    (hplain : c.pcpServer = false ∧ c.pcpClient = false) :
+    ∃ f : Nat, (f : Int) = c.fanout ∧ 0 < f ∧
+      (∀ (v : Dsh.Fan.Variant) (n : Nat) (s : Dsh.Fan.St), Dsh.Fan.Reach v f n s → ¬ Dsh.Fan.Final s →
+        ∃ l s', l.spurious = false ∧ Dsh.Fan.step s l = some s') ∧
+      (∀ (v : Dsh.Fan.Variant) (n : Nat) (ls : List Dsh.Fan.Label) (s : Dsh.Fan.St),
+        Dsh.Fan.Exec (Dsh.Fan.init v f n) ls s → ls.length ≤ 18 * n + 13 + 3 * ls.countP Dsh.Fan.Label.spurious) := by
+  have hf := (never_hangs_whole hd4 h hplain).1
+  refine ⟨c.fanout.toNat, by omega, by omega, ?_, ?_⟩
+  · intro v n s hr hnf
+    exact Props.C03.progress (by omega) hr hnf
+  · intro v n ls s he
+    have := Props.C03.steps_bounded he
+    omega
+
+/-! ## the settings where they take effect: what every target is contacted with -/
+
+/-- INDEPENDENT OF OPTION ORDER AT THE POINT OF USE (composition with the registry model of C09, Opt/Rcmd.lean:
+    wcoll_arg_process, rcmd_register_defaults, rcmd_create, rcmd_connect): the transport, user and rank EVERY target
+    is contacted with depend on the command line only through its -w words (in their order), the last -l and the
+    last -R — wherever these stand relative to each other and whatever other options are present.  In particular a
+    `-l` AFTER a `-w type:hosts` word applies to those hosts exactly as one before it. -/
+theorem contacts_order_independent (d : Defaults) (env : Env) (toks toks' : List Tok)
+    (hw : toks.filter (isOpt 'w') = toks'.filter (isOpt 'w'))
+    (hl : toks.filter (isOpt 'l') = toks'.filter (isOpt 'l'))
+    (hR : toks.filter (isOpt 'R') = toks'.filter (isOpt 'R')) :
+    contacts d env toks = contacts d env toks' := by
+  have h1 : wWords toks = wWords toks' := by rw [← wWords_filter toks, ← wWords_filter toks', hw]
+  have h2 := lastArg_other_options 'l' toks toks' hl
+  have h3 := lastArg_other_options 'R' toks toks' hR
+  unfold contacts rcmdCfg
+  rw [h1, h2, h3]
+
+/-- THE REMOTE-USER SETTING IS THE USER THAT IS USED: in an accepted run every target is contacted either as the
+    user it names itself (`user@host`: an entry of the registry built from the -w words) or as the remote user of
+    the accepted configuration — `precedence`'s value: the last -l, else the local user -/
+theorem contact_user_is_setting {fx : Fixes} {d : Defaults} {p : Pers} {env : Env} {argv : List Str} {c : Cfg}
+    {ls : List Rcmd.Line} (h : effective fx d p env argv = .ok c)
+    (hc : contacts d env (getopt (fullString d p) argv).1 = .lines ls) :
+    ∀ ln ∈ ls, ln.user = c.ruser ∨
+      ∃ reg e, Rcmd.processWords (rcmdCfg d env (getopt (fullString d p) argv).1)
+                 (wWords (getopt (fullString d p) argv).1) [] = some reg ∧
+               Rcmd.lookup reg ln.host = some e ∧ e.user = some ln.user := by
+  obtain ⟨_, _, _, a4, _, _, _⟩ := precedence h
+  obtain ⟨reg, dflt, hreg, hls⟩ := lines_of_run hc
+  intro ln hln
+  rw [hls] at hln
+  obtain ⟨host, r, rfl⟩ := mem_connectAll _ _ hln
+  unfold Rcmd.connect
+  simp only
+  cases hlk : Rcmd.lookup reg host with
+  | none =>
+    left
+    simp only [Option.bind_none, rcmdCfg]
+    rw [a4]
+    cases lastArg 'l' (getopt (fullString d p) argv).1 <;> simp [pick]
+  | some e =>
+    cases hu : e.user with
+    | none =>
+      left
+      simp only [Option.bind_some, hu, rcmdCfg]
+      rw [a4]
+      cases lastArg 'l' (getopt (fullString d p) argv).1 <;> simp [pick]
+    | some u =>
+      right
+      exact ⟨reg, e, hreg, hlk, by simp [hu]⟩
+
+def usersOf : Rcmd.Outcome → List (Str × Str)
+  | .lines ls => ls.map fun l => (l.host, l.user)
+  | .fatal => []
+
+/-- the command lines of the seeded change C18-10, and a target with a user of its own: both orders contact h1 as bar -/
+theorem contacts_witness :
+    usersOf (contacts d0 [] (getopt (fullString d0 .dsh) (words ["-w", "exec:h1", "-l", "bar", "cmd"])).1) =
+      [("h1".toList, "bar".toList)] ∧
+    usersOf (contacts d0 [] (getopt (fullString d0 .dsh) (words ["-l", "bar", "-w", "exec:h1", "cmd"])).1) =
+      [("h1".toList, "bar".toList)] ∧
+    usersOf (contacts d0 [] (getopt (fullString d0 .dsh) (words ["-w", "exec:h1,exec:u2@h3", "-l", "bar", "cmd"])).1) =
+      [("h1".toList, "bar".toList), ("h3".toList, "u2".toList)] ∧
+    usersOf (contacts d0 [] (getopt (fullString d0 .dsh) (words ["-R", "exec", "-w", "h2", "cmd"])).1) =
+      [("h2".toList, "root".toList)] := by
+  decide
+
+/-! ## the personalities: pdsh / pdcp / rpdcp have different option sets -/
+
+/-- the generated option strings: `-e` (remote pdcp path) exists for pdcp / rpdcp only, `-S` and `-k` for pdsh only;
+    the valued settings f t u l R M exist for all three -/
+theorem personality_letters :
+    optKind (optstring .dsh) 'e' = none ∧ optKind (optstring .pdcp) 'e' = some true ∧
+    optKind (optstring .rpdcp) 'e' = some true ∧
+    optKind (optstring .dsh) 'S' = some false ∧ optKind (optstring .dsh) 'k' = some false ∧
+    optKind (optstring .pdcp) 'S' = none ∧ optKind (optstring .pdcp) 'k' = none ∧
+    optKind (optstring .rpdcp) 'S' = none ∧ optKind (optstring .rpdcp) 'k' = none ∧
+    (∀ p : Pers, ∀ ch ∈ ['f', 't', 'u', 'l', 'R', 'M', 'w', 'x'], optKind (optstring p) ch = some true) := by
+  refine ⟨by decide, by decide, by decide, by decide, by decide, by decide, by decide, by decide, by decide, ?_⟩
+  intro p; cases p <;> decide
+
+/-- PDSH HAS NO REMOTE-PATH SETTING: under the pdsh personality neither PDSH_REMOTE_PDCP_PATH (ignored by opt_env)
+    nor `-e` (not in its option string: such a command line is refused) can change the remote program path: an
+    accepted run has the default.  (`hm`: no module registers an option `-e`.) -/
+theorem dsh_remote_path_default {fx : Fixes} {d : Defaults} {env : Env} {argv : List Str} {c : Cfg}
+    (hm : optKind (fullString d .dsh) 'e' = none) (h : effective fx d .dsh env argv = .ok c) :
+    c.remotePath = d.progPath := by
+  obtain ⟨_, _, _, _, _, _, a7⟩ := precedence h
+  rw [a7, lastArg_none_of_unknown _ _ _ hm]
+  simp [pick, Pers.isPcp]
+
+/-- PDCP / RPDCP HAVE NO -S / -k: their option string lacks both letters, so in an accepted copy run both flags
+    are off (a command line that mentions them is refused) — which is why a copy run that was started exits 0
+    (C08.pcp_exit0).  (`hm`: no module registers `-S` / `-k`.) -/
+theorem pcp_no_S_no_k {fx : Fixes} {d : Defaults} {p : Pers} {env : Env} {argv : List Str} {c : Cfg}
+    (hmS : optKind (fullString d p) 'S' = none) (hmk : optKind (fullString d p) 'k' = none)
+    (h : effective fx d p env argv = .ok c) : c.retRemoteRc = false ∧ c.killOnFail = false :=
+  pcp_flags_off hmS hmk h
+
+/-- -S and -k have no variable and no default other than "off": they are in force exactly when the command line
+    has the option, wherever it stands (C08's "with -S" / "with -k" are these two flags) -/
+theorem S_k_iff_on_command_line {fx : Fixes} {d : Defaults} {p : Pers} {env : Env} {argv : List Str} {c : Cfg}
+    (h : effective fx d p env argv = .ok c) :
+    (c.retRemoteRc = true ↔ ∃ arg, Tok.opt 'S' arg ∈ (getopt (fullString d p) argv).1) ∧
+    (c.killOnFail = true ↔ ∃ arg, Tok.opt 'k' arg ∈ (getopt (fullString d p) argv).1) :=
+  flag_S_iff h
+
+/-- A REFUSAL EXITS 1: when main ends before dsh(), the status is 1 (C08's "1 when it refuses its arguments") —
+    unless an option that only asks for information (-L, -V, -T) is on the command line, which ends with 0 -/
+theorem refusal_exits_1 {fx : Fixes} {d : Defaults} {p : Pers} {env : Env} {argv : List Str} {n : Nat}
+    (h : mainPlan fx d p env argv = .error n) :
+    n = 1 ∨ (n = 0 ∧ ∃ t ∈ (getopt (fullString d p) argv).1, action fx d t = .exit 0) :=
+  effective_exit_code ((refused_nothing_started fx d p env argv n).mp h)
+
+/-- the shipped build (no module registers options): the hypotheses `hm` above hold -/
+example (d : Defaults) (h : d.modOpts = []) :
+    optKind (fullString d .dsh) 'e' = none ∧ optKind (fullString d .pdcp) 'S' = none ∧
+    optKind (fullString d .rpdcp) 'k' = none := by
+  simp only [fullString, h, List.append_nil]
+  decide
+
+def nextOf : Except Nat (Cfg × Next) → Option Next
+  | .ok (_, n) => some n
+  | .error _ => none
+def exitOf : Except Nat (Cfg × Next) → Option Nat
+  | .ok _ => none
+  | .error n => some n
+def pathOf : Except Nat (Cfg × Next) → Option Str
+  | .ok (c, _) => some c.remotePath
+  | .error _ => none
+
+/-- the statements above are not vacuous: a pdsh command line with a two-word command (the second word looks like
+    an option), one without a command, a copy, and the letters of the other personality refused -/
+theorem main_witnesses :
+    nextOf (mainPlan Fixes.all d0 .dsh [] (words ["-w", "h", "-f", "3", "ls", "-l"])) = some (.run (some "ls -l".toList)) ∧
+    nextOf (mainPlan Fixes.all d0 .dsh [] (words ["-w", "h"])) = some .interactive ∧
+    nextOf (mainPlan Fixes.all d0 .dsh [] (words ["-w", "h", "-q", "ls"])) = some .info ∧
+    nextOf (mainPlan Fixes.all d0 .pdcp [("PDSH_REMOTE_PDCP_PATH".toList, "/x".toList)]
+      (words ["-w", "h", "a", "b"])) = some (.run none) ∧
+    pathOf (mainPlan Fixes.all d0 .pdcp [("PDSH_REMOTE_PDCP_PATH".toList, "/x".toList)]
+      (words ["-w", "h", "a", "b"])) = some "/x".toList ∧
+    pathOf (mainPlan Fixes.all d0 .dsh [("PDSH_REMOTE_PDCP_PATH".toList, "/x".toList)]
+      (words ["-w", "h", "ls"])) = some "/p".toList ∧
+    exitOf (mainPlan Fixes.all d0 .dsh [] (words ["-w", "h", "-e", "/x", "ls"])) = some 1 ∧
+    exitOf (mainPlan Fixes.all d0 .pdcp [] (words ["-w", "h", "-S", "a", "b"])) = some 1 := by
   decide
 
 end PdshVerif.C18
